@@ -141,9 +141,9 @@ def cli_case(case, env):
 def check(tier, seed, t0):
     common.build_harness()
     common.build_rg()
-    total = 200 if tier == "quick" else 6000
+    total = 1000 if tier == "quick" else 20000
     parts = [("lib", common.run_rgmon("c17", tier, seed)),
-             ("cli", common.run_cli_cases(None, cli_case, seed, "c17cli", total, 13 if tier == "quick" else 100))]
+             ("cli", common.run_cli_cases(None, cli_case, seed, "c17cli", total, 63 if tier == "quick" else 200))]
     if tier == "thorough":
         import sanitize
         parts.append(("miri", sanitize.miri_leg("C17", 5)(tier, seed)))
